@@ -122,9 +122,20 @@ def generate(tier, seed, casedir, variant):
             nontrivial.add((cfg["dim"], cfg["cartesian"], cfg["bt"], cfg["bx"], cfg["bb"], cfg["history"]))
         if len(samples) < 3:
             samples.append(dict(cfg, inside=ob["inside"][:4]))
+    # large products (the row order must not depend on the size of the product): oracle only
+    big = [dict(flag_form="bool", dim=1, cartesian=True, bt=128, bx=128, bb=2, nb=2, nt=130, n=131, method="uniform", history=0, seed=rng.randrange(1 << 30)),
+           dict(flag_form="bool", dim=2, cartesian=True, bt=150, bx=3, bb=128, nb=4 * 129, nt=151, n=5, method="uniform", history=1, seed=rng.randrange(1 << 30))]
+    for cfg in big:
+        try:
+            ob = observe(cfg)
+            for f in oracle(cfg, ob)[:3]:
+                viol.append({"detail": f"large product ({cfg['bt']} x {cfg['bx']}, border {cfg['bb']}): " + f, "case": cfg})
+        except Exception as ex:
+            viol.append({"detail": f"large product raised {type(ex).__name__}: {str(ex)[:200]}", "case": cfg})
+        dist["large_product"] = dist.get("large_product", 0) + 1
     write_cases(casedir, "C14", "R_C14", variant, cases, chunk=100)
     return dict(meta=meta, oracle_violations=viol, evaluations=len(cases), distinct_nontrivial=len(nontrivial),
-                rule="random (dim, option, batch sizes, border present, history length) configurations; non-trivial = at least 2 times and 2 points; distinct by configuration",
+                rule="random (dim, option, batch sizes, border present, history length) configurations, plus products of more than 16000 rows (oracle only); non-trivial = at least 2 times and 2 points; distinct by configuration",
                 samples=samples, distribution=dist, oracle_checks=len(cases))
 
 
